@@ -773,6 +773,13 @@ func c12_5(c *core.Ctx, p *core.Prog) {
 			}
 			if f := core.CalleeObj(cl); core.IsMethodOf(f, arrowIPC, "Writer", "Close") {
 				closeC = cl
+			} else if h := cl.Call.StaticCallee(); h != nil && h.Blocks != nil && h.Signature.Recv() != nil && core.NamedOf(h.Signature.Recv().Type()) == a.sp {
+				// a method of the stream producer that closes its writer
+				core.EachInstr(h, func(j ssa.Instruction) {
+					if c2, ok := j.(*ssa.Call); ok && core.IsMethodOf(core.CalleeObj(c2), arrowIPC, "Writer", "Close") {
+						closeC = cl
+					}
+				})
 			}
 		}
 		if iff, ok := i.(*ssa.If); ok {
